@@ -278,6 +278,8 @@ def run_case(case):
                 res = {'status': 'ok', 'value': spec.spec_print()}
             elif kind == 'ast':
                 res = {'status': 'ok', 'value': [ast_dump(n) for n in spec.ast.specs]}
+            elif kind == 'names':
+                res = {'status': 'ok', 'value': [names_dump(n) for n in spec.ast.specs]}
             elif kind == 'tables':
                 a = spec.ast
                 res = {'status': 'ok', 'value': {
@@ -324,6 +326,28 @@ def ast_dump(node):
     if cls.startswith('Timed'):
         return '(%s %s %s %s %s %s)' % (lab, Fraction(node.begin), node.begin_unit or '_', Fraction(node.end), node.end_unit or '_', kids)
     return '(%s %s)' % (lab, kids)
+
+
+def names_dump(node):
+    """every node of a tree as the Python object holds it, with its .name: [class, name, ...] where ... is
+    var, field (Variable) | str(val) (Constant) | str(operator), children (Predicate) | ['bound', numerator, denominator, unit] x 2,
+    children (Timed*) | children; the bounds are exact decimal strings (NodeName.node of the model)"""
+    from fractions import Fraction
+    cls = type(node).__name__
+    if cls == 'Variable':
+        return [cls, node.name, node.var, node.field if node.field else '']
+    if cls == 'Constant':
+        return [cls, node.name, str(node.val)]
+    from rtamt.syntax.node.binary_node import BinaryNode
+    arity = 2 if isinstance(node, BinaryNode) else 1
+    kids = [names_dump(c) for c in node.children[:arity]]
+    if cls == 'Predicate':
+        return [cls, node.name, str(node.operator)] + kids
+    if cls.startswith('Timed'):
+        b, e = Fraction(node.begin), Fraction(node.end)
+        return [cls, node.name, ['bound', str(b.numerator), str(b.denominator), str(node.begin_unit)],
+                ['bound', str(e.numerator), str(e.denominator), str(node.end_unit)]] + kids
+    return [cls, node.name] + kids
 
 
 def setup_spec(case):
@@ -396,6 +420,8 @@ def do_call(spec, case, call):
         return {'status': 'ok', 'value': canon_val(spec.sampling_violation_counter)}
     if kind == 'print':
         return {'status': 'ok', 'value': spec.spec_print()}
+    if kind == 'names':
+        return {'status': 'ok', 'value': [names_dump(n) for n in spec.ast.specs]}
     raise ValueError('unknown call ' + kind)
 
 
